@@ -654,6 +654,11 @@ func (g *GoFakeS3) createObjectBrowserUpload(bucket string, w http.ResponseWrite
 	if len(key) > KeySizeLimit {
 		return ResourceError(ErrKeyTooLong, key)
 	}
+	if key == "" {
+		// No request path can name the empty key, and as the last key of a
+		// listing page it is a marker that restarts the listing.
+		return ErrorMessage(ErrInvalidArgument, "User key must have a length greater than 0.")
+	}
 
 	// A browser upload carries its Content-MD5 as a form field.
 	var md5Base64 string
